@@ -56,6 +56,7 @@ type Config struct {
 	// known-finding id -> set of assertion ids it may excuse ("*" = any)
 	Known map[string]map[string]bool
 	Trace    bool
+	Cross    string // secondary solver for cross-checking assertion queries ("" = off)
 	Thorough bool
 	Disable  map[string]bool
 }
@@ -64,6 +65,8 @@ type Exec struct {
 	ld     *Loaded
 	tt     *TermTable
 	solver *Solver
+	cross  *Solver
+	crossChecked int
 	cfg    Config
 
 	harness string
@@ -122,10 +125,23 @@ func NewExec(ld *Loaded, cfg Config) (*Exec, error) {
 		return nil, err
 	}
 	e.solver = s
+	if cfg.Cross != "" {
+		// the secondary solver gets its own term flags: it is only ever used
+		// through self-contained scripts
+		c, err := NewSolver(cfg.Cross, e.tt, cfg.TimeoutMs)
+		if err == nil {
+			e.cross = c
+		}
+	}
 	return e, nil
 }
 
-func (e *Exec) Close() { e.solver.Close() }
+func (e *Exec) Close() {
+	e.solver.Close()
+	if e.cross != nil {
+		e.cross.Close()
+	}
+}
 
 // replaying reports whether execution is still inside the forced prefix.
 func (e *Exec) replaying() bool { return len(e.taken) < len(e.prefix) }
@@ -352,6 +368,14 @@ func (e *Exec) checkFail(fail *Term, id, kind, msg, site string) bool {
 		return false
 	}
 	r, m := e.solver.Check(e.pc, []*Term{fail}, true)
+	if e.cross != nil && r != Unknown {
+		// cross-solver diff: the same obligation on an independent solver
+		e.crossChecked++
+		r2 := e.cross.checkStandalone(e.pc, []*Term{fail})
+		if r2 != Unknown && r2 != r {
+			panic(engineError{fmt.Sprintf("cross-solver disagreement on %s: %s says %s, %s says %s", id, e.solver.kind, r, e.cross.kind, r2)})
+		}
+	}
 	if r == Unsat {
 		return false
 	}
